@@ -439,6 +439,37 @@ pub fn main(args: &Args) -> ! {
     }
     rep.part("E_many_connections_closed_at_once", json!(part_e));
 
+    // ---- F. a hard socket error at every poll_send call --------------------------------------------
+    // (the connection driver that meets it ends before its connection has drained: the endpoint must
+    // still be told, `wait_idle()` must return and both drivers end)
+    let mut part_f = vec![];
+    {
+        let spec = Spec::new(Scen::S9);
+        let (r1, o1) = cx.exec(&spec);
+        let (r2, _) = cx.exec(&spec);
+        if r1.trace != r2.trace {
+            report::machinery("S9: baseline is not deterministic");
+        }
+        let t0 = explore_schedule(&cx, &spec, 400, 0, k_var, dl);
+        capped_any |= t0.capped;
+        let mut execs = t0.executions;
+        let mut fired = 0u64;
+        for b in 0..o1.send_calls {
+            let mut s = spec.clone();
+            s.send_error = Some(b);
+            let (_, ob) = cx.exec(&s);
+            fired += (ob.notes.get("send_errors_fired").copied().unwrap_or(0) > 0) as u64;
+            let t = explore_schedule(&cx, &s, 400, 0, k_var, dl);
+            capped_any |= t.capped;
+            execs += t.executions;
+        }
+        if fired == 0 {
+            report::machinery("vacuity guard: no injected socket error ever fired");
+        }
+        part_f.push(json!({"scenario": "S9", "poll_send_calls_baseline": o1.send_calls, "error_points": o1.send_calls, "runs_in_which_the_error_fired": fired, "k": k_var, "executions": execs}));
+    }
+    rep.part("F_hard_socket_errors", json!(part_f));
+
     // ---- fold --------------------------------------------------------------------------------
     for (sc, hs) in &all_hashes {
         for h in hs {
